@@ -1,6 +1,6 @@
 CONFIG = dict(
     coqfiles=["Props/C01W.v"],
-    n_quick=120, n_thorough=3000, workers_quick=8,
+    n_quick=120, n_thorough=1500, workers_quick=8,
     rule="a CAS built by the real NewBlobAccessFromConfiguration on a file-backed block device (key-location map on a second file-backed device in 60% of the cases, flat or hierarchical, "
          "old_blocks = 0 so that no read refreshes, 1-3 new and 0-2 current blocks, several objects per block): 4-11 uploads, the whole blocks file garbled, one object read (detection), "
          "then 3-7 Gets / FindMissing of the objects; non-trivial = at least one successful read or an INTERNAL error; distinct = distinct input",
